@@ -1,6 +1,102 @@
 import CookModel.Side.Builder
-/- C16 (work in progress) -/
+import CookModel.Lemmas.BuilderFinish
+/-
+  C16  Converters built from configuration layers are consistent or rejected.
+
+  `build files` is the model of: a new `ConverterBuilder`, `add_units_file` for every layer in order (the first
+  error ends the build), then `finish` (src/convert/builder.rs as repaired by fixes/0001-…).  A units file is the
+  deserialised `UnitsFile` value; the hash maps the builder iterates are lists, so every statement below holds for
+  EVERY iteration order.  The theorems about panics, keys, best lists and precedence are proved for every
+  arithmetic instance `[Arith α]` (in particular the f64 instance the driver runs against the Rust code); only the
+  ordering of best lists needs a total order and is stated over exact rationals.
+-/
 namespace Cook
 open Bld
-theorem C16_placeholder : (1 : Nat) = 1 := rfl
+
+/-- the lists of a best-unit store -/
+def Bld.BestStore.lists {α : Type} : BestStore α → List (List (α × Nat))
+  | .unified l => [l]
+  | .bySystem m i => [m, i]
+
+/-- No sequence of units files makes the builder reach one of its panic sites (indexing, `unwrap`, the assertions
+    of `expand_si` and `convert_f64`, unbounded recursion of `remove_unit_rec`): the result is a converter or a
+    build error.  (No premise on the ratios is needed in the model; in the Rust code finiteness is what makes
+    `sort_by`'s comparison a total order.) -/
+theorem C16_builder_no_panic {α : Type} [Arith α] (files : List (UnitsFile α)) (site : String) :
+    build files ≠ .error (.panic site) :=
+  (build_good files).not_panic site
+
+/-- On success the converter's index and units are consistent: every name, symbol and alias of every unit resolves
+    to exactly that unit, every index entry is a key of the unit it maps to, and no key is shared by two units. -/
+theorem C16_builder_inv {α : Type} [Arith α] (files : List (UnitsFile α)) (conv : Converter α) (h : build files = .ok conv) :
+    (∀ (id : Nat) (u : Bld.Unit α) (k : Key), conv.units[id]? = some u → k ∈ u.keys → idxGet conv.index k = some id) ∧
+    (∀ k id, idxGet conv.index k = some id → ∃ u, conv.units[id]? = some u ∧ k ∈ u.keys) ∧
+    (∀ (i j : Nat) (u v : Bld.Unit α) (k : Key), conv.units[i]? = some u → conv.units[j]? = some v → k ∈ u.keys → k ∈ v.keys → i = j) := by
+  obtain ⟨b, c, _, hready, hp⟩ := (build_good files).of_ok h
+  have hget : ∀ (id : Nat) (u : Bld.Unit α), conv.units[id]? = some u → ∃ ub : UnitB α, c.units[id]? = some ub ∧ ub.unit = u := by
+    intro id u hu
+    rw [hp.units, List.getElem?_map] at hu
+    obtain ⟨ub, h1, h2⟩ := Option.map_eq_some_iff.mp hu
+    exact ⟨ub, h1, h2⟩
+  have h1 : ∀ (id : Nat) (u : Bld.Unit α) (k : Key), conv.units[id]? = some u → k ∈ u.keys → idxGet conv.index k = some id := by
+    intro id u k hu hk
+    obtain ⟨ub, hub, rfl⟩ := hget id u hu
+    rw [hp.index]; exact hready.1.complete id ub (by simp) hub k hk
+  refine ⟨h1, ?_, ?_⟩
+  · intro k id hk
+    rw [hp.index] at hk
+    obtain ⟨_, ub, hub, hkk⟩ := hready.1.sound k id hk
+    exact ⟨ub.unit, by rw [hp.units, List.getElem?_map, hub]; rfl, hkk⟩
+  · intro i j u v k hu hv hku hkv
+    have a := h1 i u k hu hku
+    have b := h1 j v k hv hkv
+    rw [a] at b; exact Option.some.inj b
+
+/-- On success there is exactly one best-unit store per physical quantity; each of its lists is non-empty, starts
+    with threshold 1, and holds only units of that quantity (after the repair; before it a list could hold units of
+    another quantity or `finish` panicked). -/
+theorem C16_best_lists {α : Type} [Arith α] (files : List (UnitsFile α)) (conv : Converter α) (h : build files = .ok conv) :
+    conv.best.map (·.1) = PQ.all ∧
+    ∀ q s l, (q, s) ∈ conv.best → l ∈ s.lists →
+      (∃ base ts, l = (Arith.ofNat 1, base) :: ts) ∧ ∀ e, e ∈ l → ∃ u, conv.units[e.2]? = some u ∧ u.quantity = q := by
+  obtain ⟨b, c, _, hready, hp⟩ := (build_good files).of_ok h
+  refine ⟨hp.best_keys, ?_⟩
+  intro q s l hqs hl
+  obtain ⟨bd, _, hspec⟩ := hp.best (q, s) hqs
+  have hfin : ∀ names, BestSpec c q names l →
+      (∃ base ts, l = (Arith.ofNat 1, base) :: ts) ∧ ∀ e, e ∈ l → ∃ u, conv.units[e.2]? = some u ∧ u.quantity = q := by
+    intro names hs
+    obtain ⟨base, _, ts, hl, _, _⟩ := hs.shape
+    refine ⟨⟨base, ts, hl⟩, ?_⟩
+    intro e he
+    obtain ⟨u, hu, hq⟩ := hs.quantity e he
+    exact ⟨u.unit, by rw [hp.units, List.getElem?_map, hu]; rfl, hq⟩
+  cases bd <;> cases s <;> simp only [StoreSpec, BestStore.lists, List.mem_cons, List.not_mem_nil, or_false] at hspec hl
+  · subst hl; exact hfin _ hspec
+  · rcases hl with rfl | rfl
+    · exact hfin _ hspec.1
+    · exact hfin _ hspec.2
+
+/-- Over exact rationals every best list is in non-decreasing order of size (ratio). -/
+theorem C16_best_sorted (files : List (UnitsFile Rat)) (conv : Converter Rat) (h : build files = .ok conv) :
+    ∀ q s l, (q, s) ∈ conv.best → l ∈ s.lists →
+      l.Pairwise (fun a b => ∀ ua ub, conv.units[a.2]? = some ua → conv.units[b.2]? = some ub → ua.ratio ≤ ub.ratio) := by
+  obtain ⟨b, c, _, hready, hp⟩ := (build_good files).of_ok h
+  intro q s l hqs hl
+  obtain ⟨bd, _, hspec⟩ := hp.best (q, s) hqs
+  have hfin : ∀ names, BestSpec c q names l →
+      l.Pairwise (fun a b => ∀ ua ub, conv.units[a.2]? = some ua → conv.units[b.2]? = some ub → ua.ratio ≤ ub.ratio) := by
+    intro names hs
+    refine hs.sorted.imp ?_
+    intro a b hab ua ub hua hub
+    rw [hp.units, List.getElem?_map] at hua hub
+    obtain ⟨xa, h1, rfl⟩ := Option.map_eq_some_iff.mp hua
+    obtain ⟨xb, h2, rfl⟩ := Option.map_eq_some_iff.mp hub
+    exact hab xa xb h1 h2
+  cases bd <;> cases s <;> simp only [StoreSpec, BestStore.lists, List.mem_cons, List.not_mem_nil, or_false] at hspec hl
+  · subst hl; exact hfin _ hspec
+  · rcases hl with rfl | rfl
+    · exact hfin _ hspec.1
+    · exact hfin _ hspec.2
+
 end Cook
